@@ -52,6 +52,9 @@ def candidate_domain(ctx):
     out.append(a2 + "/%s:%s" % (opt2[0], [x for x in l2[opt2[0]] if x != s2["nd"]][0]))
     out.append(a2[:-1] + "q")  # unknown value
     out.append("/".join(a2.split("/")[:-1]) + "/%s:%s/%s:%s" % (opt2[0], s2["nd"], opt2[1], s2["nd"]))  # mandatory metric missing
+    f2 = a2.split("/")
+    au = [x for x in f2 if x.startswith("Au:")]
+    out.append("/".join(au + [x for x in f2 if x not in au]))  # same vector, Au first: no "/Au:" in it
     out.append(a2.lower())
     out.append("/" + a2)
     out.append(a2 + "/")
@@ -420,11 +423,49 @@ class TextSemantics(object):
         self.events = list(ev.events)
 
     # -- evaluation at one joint assignment -----------------------------------------------------
-    def pinned(self, row):
+    def pinned(self, row, text_has=None):
         st2 = self.ev.new_state()
         for i, s in enumerate(row):
             st2.dom["cand:%d" % i] = (s,)
+        for s, b in (text_has or {}).items():
+            st2.dom["text_has:" + s] = (b,)
         return st2
+
+    def text_predicates(self):
+        """Substring tests on the text argument that the value graph mentions (a fast path in
+        front of the search, a prefix test)."""
+        from .pointeval import text_predicates_in
+
+        roots = []
+        for e in self.events:
+            roots.extend(c for c in e.pc if isinstance(c, Term))
+            if isinstance(e.data.get("cond"), Term):
+                roots.append(e.data["cond"])
+        if isinstance(self.val, Term):
+            roots.append(self.val)
+        for o in self.st.heap.values():
+            if getattr(o, "kind", None) in ("list", "set"):
+                for g, x in o.items:
+                    roots.extend(t for t in (g, x) if isinstance(t, Term))
+        roots.extend(c for c in getattr(self.st, "pc", []) if isinstance(c, Term))
+        return text_predicates_in(roots)
+
+    def text_assignments(self, row, preds):
+        """Admissible truth values of the substring tests for a text whose candidates are `row`:
+        a string that occurs in a candidate occurs in the text; otherwise the text may or may not
+        contain it (somewhere outside the candidates)."""
+        import itertools as it_
+
+        if not preds:
+            return [{}]
+        forced = dict((s, True) for s in preds if any(s in c for c in row))
+        free = [s for s in preds if s not in forced]
+        out = []
+        for bits in it_.product((False, True), repeat=len(free)):
+            d = dict(forced)
+            d.update(zip(free, bits))
+            out.append(d)
+        return out
 
     def value_at(self, st2, t):
         """Value of a term of the value graph at one full assignment of the candidates."""
@@ -523,8 +564,11 @@ def check_text_semantics(ctx, led, rule="C13.sem"):
         rows = list(itertools.product(ts.strings, repeat=K))
         bad = None
         esc = None
-        for row in rows:
-            st2 = ts.pinned(row)
+        preds = ts.text_predicates()
+        if len(preds) > 4:
+            raise AnalysisError("C13.sem", "more than four substring tests on the text", f.node, f.module)
+        for row, th in ((r, th) for r in rows for th in ts.text_assignments(r, preds)):
+            st2 = ts.pinned(row, th)
             n += 1
             hit = None
             for e in escapes:
@@ -548,7 +592,7 @@ def check_text_semantics(ctx, led, rule="C13.sem"):
             got = ts.result_at(st2)
             want, allowed = ts.expected_at(row)
             if bad is None and (any(t not in got for t in want) or any(t not in allowed for t in got) or len(set(map(repr, got))) != len(got)):
-                bad = (row, got, want, allowed)
+                bad = (row, got, want, allowed, th)
         if esc is not None:
             e, row = esc
             what = e.data.get("what") or e.kind
@@ -560,7 +604,7 @@ def check_text_semantics(ctx, led, rule="C13.sem"):
         else:
             led.ok(rule + ".total", "%s::K=%d" % (ck, K), where, "no exception leaves the function for %d candidate sequences" % len(rows))
         if bad is not None:
-            row, got, want, allowed = bad
+            row, got, want, allowed, th = bad
             extra = [t for t in got if t not in allowed]
             missing = [t for t in want if t not in got]
             dup = [t for t in got if got.count(t) > 1]
@@ -572,7 +616,10 @@ def check_text_semantics(ctx, led, rule="C13.sem"):
                 what = "equal objects (%s) are returned twice" % _show(dup[0])
             else:
                 what = "the result %r differs from the expected %r" % (got, want)
-            led.violation(rule + ".result", "%s::result K=%d" % (ck, K), where, "with the candidates %s in the text: %s" % (list(row), what))
+            note = ""
+            if th:
+                note = " (text in which %s)" % ", ".join("%r %s" % (s_, "occurs" if b_ else "does not occur") for s_, b_ in sorted(th.items()))
+            led.violation(rule + ".result", "%s::result K=%d" % (ck, K), where, "with the candidates %s in the text%s: %s" % (list(row), note, what))
         elif esc is None or ts.val is not None:
             led.ok(rule + ".result", "%s::result K=%d" % (ck, K), where, "%d candidate sequences: exactly the valid candidates, each once" % len(rows))
     return widest, n
